@@ -46,14 +46,15 @@ def run(F, res, tier):
     # ---- R1
     for p in FEATURES:
         f = F.fn(p)
-        fs = [F.fns[x] for x in F.with_closures(p)]
+        fs = [F.fns[x] for x in F.with_helpers(p, depth=1, stop=[SEM])]
         calls = [callee(t) for ff in fs for b, t in ff.calls()]
         res.ob("R1", "feature/" + p.rsplit("::", 1)[-1], "%s classifies the node under the cursor with classify_node" % p.rsplit("::", 1)[-1],
                CLASSIFY in calls, where=f.loc(), how="calls classify_node: %s" % (CLASSIFY in calls))
     for n in FOUND:
         f = F.fn("ide::def::search::FindUsages::" + n)
-        calls = [callee(t) for b, t in f.calls()]
-        eq = any((callee_def(t) or "").endswith("PartialEq::eq") or (callee(t) or "").endswith("PartialEq>::eq") for b, t in f.calls())
+        fs = [F.fns[x] for x in F.with_helpers(f.path, depth=1, stop=[SEM])]
+        calls = [callee(t) for ff in fs for b, t in ff.calls()]
+        eq = any((callee_def(t) or "").endswith("PartialEq::eq") or (callee(t) or "").endswith("PartialEq>::eq") for ff in fs for b, t in ff.calls())
         res.ob("R1", "search/" + n, "FindUsages::%s keeps a candidate only if classify_node(candidate) equals the searched definition" % n,
                CLASSIFY in calls and eq, where=f.loc(), how="classify_node: %s, equality test: %s" % (CLASSIFY in calls, eq))
     private = [p for p in F.fns if p.startswith(SEM + "classify_") and p != CLASSIFY and F.fns[p].kind == "Fn"]
